@@ -217,7 +217,7 @@ let eval (op : string) (a : string list) : string =
   | "xr", tab :: obj :: streams -> eval_xr tab obj streams
   | "pool", kind :: acts -> eval_pool kind acts
   | "sb", [c] -> (match snappy_block_decode (bytes_of_hex c) with Some b -> hexs b | None -> "!")
-  | ("rt" | "hist" | "conc" | "mix" | "proto"), _ -> "ok"
+  | ("rt" | "hist" | "conc" | "mix" | "proto" | "bigx"), _ -> "ok"
   | _ -> "BADCASE"
 
 let () =
